@@ -78,6 +78,25 @@ CHECKS.update({
         note="trusted: RefParse/InG_Recur, alpha of parsed rules and the independent kwargs mapping in vf/props/c19.py, dateutil as the 'standard expander', TLC.", design="5 C19"),
 })
 
+CHECKS.update({
+    "C01": dict(engine="Parser",
+        technique="TLA+ automaton of the from_ical line loop with its inverse Emit; stability theorem checked by TLC on every abstract line sequence; sequences concretised and run through parse/serialise/parse/serialise on the real code; TLC-generated well-formed calendars with carried denotation; fixtures and delimiter mutations",
+        text="TLC proves Parse(Emit(Parse(x))) ~ Parse(x) and idempotence of Emit on all abstract sequences up to 5/6 lines; the accepted ones are concretised (several spellings per token) and the real four-step round trip is compared on a typed projection (names, value classes, parameters, encoded values, bytes); CalendarGen behaviours (shape, pool properties, rendering choices chosen by TLC) must parse to exactly the denotation their pool entries carry; all fixture calendars and delimiter-token mutations of them go through the same round trip.",
+        note="trusted: the pool's denotations (RFC reading per line) in vf/calgen.py, the typed projection in vf/parsercommon.py, TLC. Value-level Ref is C03/C05/C07/C08.", design="5 C01"),
+    "C02": dict(engine="PropertyTypes",
+        technique="TLA+ transcription of the RFC 5545 property/value-type table and the VALUE/TZID wire rule (LineOK); TLC enumerates every admissible cell; each cell built through the real API by three routes, serialised, projected and parsed back; all observations judged by TLC trace spec",
+        text="TLC enumerates every (property name, value kind) cell the RFC admits; each is built with add / item assignment / property setters, alone and nested, with five parameter shapes, under both providers; the emitted line's VALUE and TZID parameters and Z suffix, the read-back name/order/parameters, value equality and decoded RFC type are recorded and judged by LineOK and the table in Trace_PropertyTypes.",
+        note="trusted: the RFC table in spec/PropertyTypes.tla, one representative value per kind, wire projection regex and equality per kind in vf/props/c02.py, TLC.", design="5 C02"),
+    "C04": dict(engine="Parser",
+        technique="TLA+ automaton of the from_ical line loop; totality and the isolation theorem model-checked on every abstract line sequence; sequences concretised and parsed (single/multiple, both providers) with outcome and tree compared to the model; hostile structured pools and seeded fuzz with a TLC-evaluated acceptance predicate",
+        text="TLC proves that the loop ends in a result or an error and that a bad line inserted at any position of an accepted sequence is dropped+recorded inside VEVENT and fatal elsewhere; every sequence up to 4/5 lines is concretised with mismatched END names, mixed case and several bad-line spellings and the real outcome class, tree, error lists and nesting must equal the model; ~170 hostile cases (TZIDs, malformed VTIMEZONEs, deep nesting, END:VTIMEZONE misuse) and mutated fixtures / token soup / random bytes are parsed, serialised and walked, the outcome class and CPU budget judged by Trace_Parser.",
+        note="trusted: concretisation pools in vf/parsercommon.py (bad lines are refused by the RFC grammars and by the decoders), TLC. The fuzz part is sampling.", design="5 C04"),
+    "C09": dict(engine="Wire",
+        technique="TLA+ spec of RFC framing (Frame) and of rendering choices (Render); theorem Frame(Render(ls, ch)) = Frame(Render(ls, plain)) for Ref and for the mirror of the library's framing checked by TLC; TLC-chosen renderings of generated calendars and rewrites of fixtures parsed by the real code and compared",
+        text="TLC checks for all short line lists and all 288 rendering choices (CRLF/LF, BOM, str/bytes, 4 fold placements with SP/TAB, 3 letter cases, trailing blanks) that the Ref frame and the mirrored library frame do not depend on the choices; CalendarGen behaviours rendered under TLC-chosen choices must give the same tree (against the carried denotation) and the same re-serialisation for every rendering under both providers; well-formed fixtures are rewritten the same way.",
+        note="trusted: renderer/rewriter in vf/calgen.py and vf/props/c09.py (validated against TLC's Render on the small pool only by construction), TLC.", design="5 C09"),
+})
+
 NOT_YET = "not yet built in this round (specification and binding under construction; see DESIGN.md section 10)"
 
 
